@@ -425,7 +425,7 @@ Proof.
     repeat split; try assumption. left; reflexivity.
 Qed.
 
-(* ------------------------------------------------------------------ the three ways to cancel establish the invariant *)
+(* ------------------------------------------------------------------ the ways to cancel establish the invariant *)
 Lemma busy_not_idle : forall s, d_state s = ST_BUSY -> d_state s <> ST_IDLE.
 Proof. intros s H. rewrite H. discriminate. Qed.
 
@@ -439,9 +439,28 @@ Lemma dest_cancel_establishes :
      handle_eof_pdu c ck sz s = (s', Ok tt) ->
      dest_cancelled s' /\ fs_d s' = fs_d s /\
      (h_mode (p_conf (d_p s)) = UNACKED -> d_step s' = DS_TRANSFER_COMPLETION) /\
-     (h_mode (p_conf (d_p s)) = ACKED -> d_step s' = DS_SENDING_EOF_ACK)).
+     (h_mode (p_conf (d_p s)) = ACKED -> d_step s' = DS_SENDING_EOF_ACK)) /\
+  (* an EOF (cancel) received before the Metadata is handled exactly like any other EOF (cancel) (F32 repair) *)
+  (forall c ck sz, c <> C_NO_ERROR ->
+     (forall s, handle_eof_without_previous_metadata c ck sz s = handle_eof_pdu c ck sz s) /\
+     (forall s s', d_state s = ST_BUSY ->
+        h_mode (p_conf (d_p s)) = ACKED \/ h_mode (p_conf (d_p s)) = UNACKED ->
+        handle_eof_without_previous_metadata c ck sz s = (s', Ok tt) ->
+        dest_cancelled s' /\ fs_d s' = fs_d s /\
+        (h_mode (p_conf (d_p s)) = UNACKED -> d_step s' = DS_TRANSFER_COMPLETION) /\
+        (h_mode (p_conf (d_p s)) = ACKED -> d_step s' = DS_SENDING_EOF_ACK))).
 Proof.
-  split; [|split].
+  assert (E4 : forall c ck sz, c <> C_NO_ERROR ->
+     forall s, handle_eof_without_previous_metadata c ck sz s = handle_eof_pdu c ck sz s).
+  { intros c ck sz Hc s. unfold handle_eof_without_previous_metadata.
+    apply Z.eqb_neq in Hc. rewrite Hc. reflexivity. }
+  cut (forall c ck sz s s', d_state s = ST_BUSY -> c <> C_NO_ERROR ->
+     h_mode (p_conf (d_p s)) = ACKED \/ h_mode (p_conf (d_p s)) = UNACKED ->
+     handle_eof_pdu c ck sz s = (s', Ok tt) ->
+     dest_cancelled s' /\ fs_d s' = fs_d s /\
+     (h_mode (p_conf (d_p s)) = UNACKED -> d_step s' = DS_TRANSFER_COMPLETION) /\
+     (h_mode (p_conf (d_p s)) = ACKED -> d_step s' = DS_SENDING_EOF_ACK)).
+  { intro P3. split; [|split; [|split; [exact P3|]]].
   - intros a b s s' Hb H.
     destruct (Z_lt_le_dec 0 (d_ready s)) as [Hr|Hr].
     + rewrite (dest_cancel_unretrieved a b s (busy_not_idle s Hb) Hr) in H. discriminate H.
@@ -463,7 +482,9 @@ Proof.
       apply Z.eqb_neq in Hne. rewrite Hne.
       destruct (fh =? FH_ABANDON); unfold bind, reset_internal, emit, modify, ret, raise; intro H; [discriminate H|].
       injection H as _ E. apply Z.eqb_neq in Hne. contradiction.
-  - intros c ck sz s s' Hb Hc Hm H.
+  - intros c ck sz Hc. split; [exact (E4 c ck sz Hc)|].
+    intros s s' Hb Hm H. rewrite (E4 c ck sz Hc) in H. exact (P3 c ck sz s s' Hb Hc Hm H). }
+  { intros c ck sz s s' Hb Hc Hm H.
     destruct s as [cfg st step stid rdy q p env].
     destruct p as [ptid prc pct pcc pcl pck pfin pdisp pconf ppr pcrc pfsz pfn pfse pmdo ptr pmdm pls ple pdef ppt pnc pat pac].
     destruct pfin as [dl fst0 cd fl]. cbn in Hb, Hm, H |- *. subst st.
@@ -476,7 +497,7 @@ Proof.
       (destruct prc as [r|]; cbn; [|intro H; discriminate H]);
       zeqb; cbv iota; (destruct Hm as [Hm|Hm]; rewrite Hm; zeqb; cbv iota; cbn; intro H; injection H as <-; cbn;
         (split; [split; [reflexivity | split; [reflexivity | tauto]]|]);
-        (split; [reflexivity|]); split; intro Hx; try reflexivity; exfalso; revert Hx; unfold ACKED, UNACKED; lia).
+        (split; [reflexivity|]); split; intro Hx; try reflexivity; exfalso; revert Hx; unfold ACKED, UNACKED; lia). }
 Qed.
 
 (* ------------------------------------------------------------------ why the statement reads as it does *)
